@@ -301,6 +301,8 @@ def runLine (r : Report) (sec : Nat) (l : Line) : Report := Id.run do
     if ((parseWorkers wS).getD []).any (· < 1) then r := r.addCover "workers-option<1"
     if ((parseWorkers wS).getD []).length > 1 then r := r.addCover "workers-option-list(last-wins)"
     if (kv? l.op "co") = some "0" then r := r.addCover "context-option-first"
+    if (kv? l.op "ck") = some "d" then r := r.addCover s!"context-kind-deadline-{(kv? l.op "ctx").getD ""}"
+    if (kv? l.op "ck") = some "v" then r := r.addCover s!"context-kind-derived-{(kv? l.op "ctx").getD ""}"
   if c.workers = defaultWorkers then r := r.addCover "workers=16"
   if (l.op.any fun t => ((t.splitOn "=").getD 1 "").splitOn "/" |>.any fun sc => (sc.splitOn ".").contains "f") then
     r := r.addCover "nested-calls-from-a-user-function"
@@ -542,7 +544,15 @@ def runUnit (r : Report) (sec : Nat) (l : Line) : Report := Id.run do
     let some ws := (kv? kvs "w").bind parseWorkers | return r.mismatch sec l.idx "bad-op" opS
     let some cx := kv? kvs "ctx" | return r.mismatch sec l.idx "bad-op" opS
     r := r.addCover s!"unit-buildOptions-{if ws.isEmpty then "default" else if ws.length = 1 then "one" else "list"}-ctx-{if cx = "none" then "absent" else "present"}"
-    let want := s!"workers={workersOf ws} ctx={if cx = "none" then "bg" else "given"}"
+    -- a second WithContext inserted at position k2 of the list that already holds the first one at k: it is applied
+    -- later iff k2 > k
+    let cx2 := (kv? kvs "ctx2").getD "none"
+    let ctxWant := if cx = "none" then (if cx2 = "none" then "bg" else "given2")
+      else if cx2 = "none" then "given"
+      else (let k := min (cx.toNat?.getD 0) ws.length; let k2 := min (cx2.toNat?.getD 0) (ws.length + 1)
+            if k2 > k then "given2" else "given")
+    if cx2 ≠ "none" then r := r.addCover "unit-buildOptions-two-contexts(last-wins)"
+    let want := s!"workers={workersOf ws} ctx={ctxWant}"
     if obs ≠ want then
       r := r.violation sec l.idx s!"buildOptions: {obs}, expected {want} (defaults 16 / Background, every option applied in order, the last WithWorkers wins, < 1 clamped to 1, the context forwarded from any position) op=[{opS}]"
     return r
